@@ -1,4 +1,5 @@
 import Sop.Model.Commit
+import Sop.Model.CommitPre
 import Sop.Driver.Util
 /-! Line protocol over Model P, shared by the drivers of C01, C07, C10, C11 (and others built on the commit model). -/
 namespace Sop.Driver.CommitProto
@@ -50,6 +51,7 @@ structure St where
   fault : Option Fault := none
   maxRetry : Nat := 30
   last : Option Run := none
+  lids : List UUID := []          -- every logical id the case has registered (`h` lines and what commits registered)
 deriving Inhabited
 
 def natList (s : String) : List Nat :=
@@ -88,7 +90,11 @@ def runCommit (st : St) (tid : Nat) : St × String :=
   let r0 : Run := { s := s0, tid := tid, fault := st.fault, fresh := st.fresh, cs := if created then .createStore else .unknown }
   let (o, r) := commit { stores := st.ws } st.maxRetry r0
   let out := (match o with | .ok => "ok" | .err => "err" | .conflict => "conflict") ++ " | " ++ " ; ".intercalate (r.trace.reverse.map showEv)
-  ({ st with s := r.s, fresh := r.fresh, fault := none, last := some r }, out)
+  -- do this commit's inputs satisfy the premises of the Model P theorems? (a statistic for the evidence, not compared)
+  let viol := hypViolations st.lids s0 { stores := st.ws } st.fresh
+  let note := if viol.isEmpty then "\t%hyp:ok" else "\t%hyp:violated:" ++ ",".intercalate viol
+  let newLids := ({ stores := st.ws } : WS).newIds'
+  ({ st with s := r.s, fresh := r.fresh, fault := none, last := some r, lids := st.lids ++ newLids }, out ++ note)
 
 /-- the state right before the `occ`-th call of class `cls` of the commit (none: at the end of phase 1) -/
 def prefixState (st : St) (tid : Nat) (stop : Option (Cls × Nat)) : State :=
@@ -111,7 +117,7 @@ def step (st : St) (ws : List String) : St × String :=
   | ["h", lid, a, b, act, ver, wip, del] =>
     match lid.toNat?, a.toNat?, b.toNat?, boolOf act, ver.toInt?, boolOf del with
     | some lid, some a, some b, some act, some ver, some del =>
-      ({ st with s := st.s.setReg ⟨lid, a, b, act, ver, wipOf wip st.s.now, del⟩ }, "ok")
+      ({ st with s := st.s.setReg ⟨lid, a, b, act, ver, wipOf wip st.s.now, del⟩, lids := lid :: st.lids }, "ok")
     | _, _, _, _, _, _ => (st, "bad-op")
   | ["b", ids] => ({ st with s := st.s.addBlobs (natList ids) }, "ok")
   | ["cnt", store, n] =>
